@@ -83,8 +83,13 @@ pub static C04: Structured = Structured { functions: false };
 pub static C05: Structured = Structured { functions: true };
 
 pub fn run_and_compare(p: &Program, strict_cond_errors: bool) -> Verdict {
+    run_and_compare2(p, strict_cond_errors, false)
+}
+
+pub fn run_and_compare2(p: &Program, strict_cond_errors: bool, strict_header_errors: bool) -> Verdict {
     let mut interp = gen::Interp::new(p);
     interp.strict_cond_errors = strict_cond_errors;
+    interp.strict_header_errors = strict_header_errors;
     let m = match interp.run() {
         Ok(m) => m,
         Err(gen::Stop::Inconclusive(r)) => return Verdict::Inconclusive { reason: r },
@@ -170,6 +175,7 @@ impl Prop for Structured {
             avoid_forin_return: avoid.iter().any(|a| a == "return_or_call_inside_forin_body"),
             avoid_fullname_else: avoid.iter().any(|a| a == "fullname_else"),
             odd_cond_args: self.functions && !avoid.iter().any(|a| a == "condition_call_argument_reparse"),
+            err_conds: !self.functions && !avoid.iter().any(|a| a == "condition_reports_error"),
             ..Default::default()
         };
         let program = gen::generate_program(rng, &opts);
@@ -183,7 +189,7 @@ impl Prop for Structured {
         };
         let verdict = match &case.long {
             Some(l) => run_long_haul(l),
-            None => run_and_compare(&case.program, self.functions && !env.avoid.iter().any(|a| a == "error_inside_condition_call")),
+            None => run_and_compare2(&case.program, self.functions && !env.avoid.iter().any(|a| a == "error_inside_condition_call"), !self.functions && !env.avoid.iter().any(|a| a == "condition_reports_error")),
         };
         Outcome::collect(verdict, false)
     }
@@ -221,6 +227,8 @@ impl Prop for Structured {
             // program that merely contains such a function is not this finding)
             "error_inside_condition_call" => matches!(gen::Interp::new(&case.program).run(), Err(gen::Stop::Inconclusive(r)) if r == "failing leaf inside a condition call"),
             "condition_call_argument_reparse" => gen::has_odd_condition_call_argument(&case.program),
+            // exactly the runs in which a header's own condition reported an error before anything else went wrong
+            "condition_reports_error" => matches!(gen::Interp::new(&case.program).run(), Err(gen::Stop::Inconclusive(r)) if r == "a condition that reports an error"),
             _ => false,
         }
     }
